@@ -10,7 +10,8 @@ from ..harness import Acc, Discrepancy, hyp_search
 from .c09 import expected_names, lower_json, message_names
 
 ID = "C07"
-RULE = ("Hypothesis draws a schema-valid document of any of the 19 root types (valid by construction under Draft 4: bounds, "
+RULE = ("Exhaustive sweep: every keyword slot x every applicable single fault kind x context {root, nested in each parent type "
+        "(quick: the first), in a child list at index 1} on a minimal valid document. Random: Hypothesis draws a schema-valid document of any of the 19 root types (valid by construction under Draft 4: bounds, "
         "arities, required keywords, maxItems), loads it from rendered text (1 in 4 built through the dict API / create()), then "
         "injects 0, 1 or 2 faults at drawn objects (any depth, any list index): value outside an enum, number below minimum / "
         "above maximum, wrong arity, wrong JSON type, bad item inside a value list, unknown keyword, required keyword removed - "
@@ -30,7 +31,7 @@ TIERS = {
     "quick": {"examples": 16000, "arbitrary": 8000, "budget_s": 110},
     "thorough": {"examples": 60000, "arbitrary": 40000, "budget_s": 1800},
 }
-PARTS = ["search"]
+PARTS = ["sweep", "search"]
 ROOT_WEIGHTED = vocab.OBJ_TYPES + ["map"] * 8 + ["layer"] * 6 + ["class"] * 4 + ["style", "label", "legend", "scalebar", "leader"]
 
 
@@ -173,6 +174,88 @@ def check(d, root, flist, case, ch=None, public=False):
         if got2 != got:
             out.append(Discrepancy(f"metamorphic:{rel[:20]}", f"verdict changed under {rel}: {got} -> {got2}", case))
     return out
+
+
+def sweep(acc: Acc, tier, shard, nshards):
+    """Exhaustive single-fault sweep: every keyword slot x every applicable fault kind x context
+    {root, nested once in each parent type, nested in a list at index 1}, on a minimal valid document
+    that holds the keyword with a representative valid value of its first alternative."""
+    from . import c19
+
+    class First:
+        """deterministic chooser: always the first choice (fault values are confirmed invalid by the evaluator)"""
+
+        def choice(self, seq):
+            return list(seq)[0]
+
+        def int(self, lo, hi):
+            return lo
+
+        def bool(self):
+            return True
+
+        def chance(self, a, b):
+            return False
+
+    ch = First()
+    W = env.Workers.get()
+    idx = 0
+    for t in vocab.OBJ_TYPES:
+        parents = [(None, None, False)] + [(p, k, lst) for (p, k, c, lst) in vocab.child_edges()
+                                           if c == t and p != "symbolset" and not (c == "symbol" and p in ("style", "class"))]
+        if tier == "quick":
+            parents = parents[:2]
+        for key, slot in vocab.slots(t).items():
+            reps = c19.rep_values(t, slot, slot.alts[0], 1)
+            if not reps or reps[0][0][0] != "attr":
+                items = []   # block-valued keyword: object-level faults only
+            else:
+                items = reps[0]
+            if t == "label" and key == "backgroundshadowsize":
+                acc.excl("KF12:label_backgroundshadowsize")
+                continue
+            for (parent, pk, is_list) in parents:
+                obj = {"t": t, "items": copy.deepcopy(items)}
+                if t == "layer" and key != "type":
+                    obj["items"].append(["attr", "type", "enum", "POINT"])
+                if parent is None:
+                    doc = [obj]
+                else:
+                    pobj = {"t": parent, "items": ([["obj", {"t": t, "items": ([["attr", "type", "enum", "POINT"]] if t == "layer" else [])}]] if is_list else []) + [["obj", obj]]}
+                    if parent == "layer":
+                        pobj["items"].append(["attr", "type", "enum", "POINT"])
+                    doc = [pobj]
+                sites = faults.object_sites(doc)
+                site = sites[-1]
+                for cand in faults.candidate_faults(site[1]):
+                    if cand[1] not in (None, key):
+                        continue
+                    if cand[1] is None and key != next(iter(vocab.slots(t))):
+                        continue   # object-level faults once per (type, context)
+                    idx += 1
+                    if idx % nshards != shard:
+                        continue
+                    text = render.render(doc).text
+                    try:
+                        d = W.loads(text, position=True)
+                    except Exception as e:
+                        acc.violations.append({"bucket": f"sweep_load:{t}.{key}", "message": f"minimal valid document rejected: {e!s:.100}", "case": {"text": text},
+                                               "search": "sweep", "shard": shard, "round": 0, "seed": env.verif_seed(), "tier": tier})
+                        continue
+                    f = faults.apply_fault(ch, d, site, cand)
+                    if f is None:
+                        acc.excl("sweep:fault_not_applicable")
+                        continue
+                    acc.evaluations += 1
+                    acc.exhaustive_cases += 1
+                    acc.nontrivial.add(env.fp([t, key, cand[2], parent]))
+                    acc.cls("sweep:" + cand[2])
+                    acc.cls("sweep_ctx:" + ("root" if parent is None else "list_index1" if is_list else "nested"))
+                    root = doc[0]["t"]
+                    case = {"text": text, "root": root, "faults": [f], "dict_api": False, "doc": doc}
+                    for dd in check(d, root, [f], case):
+                        if not any(v["bucket"] == dd.bucket for v in acc.violations):
+                            acc.violations.append({**dd.as_dict(), "search": "sweep", "shard": shard, "round": 0, "seed": env.verif_seed(), "tier": tier})
 
 
 def search(acc: Acc, tier, shard, nshards):
